@@ -276,7 +276,9 @@ pub(super) fn opt_template_arg_list(p: &mut Parser) {
 // TemplateArgList ::= "<" TemplateArgDecl ( "," TemplateArgDecl )* ">"
 pub(super) fn template_arg_list(p: &mut Parser) {
     p.start_node(SyntaxKind::TemplateArgList);
-    delimited(p, T![<], T![>], T![,], template_arg_decl);
+    if !delimited(p, T![<], T![>], T![,], template_arg_decl) {
+        p.error("expected template argument declaration");
+    }
     p.finish_node();
 }
 
